@@ -429,7 +429,7 @@ def harness_build_failed(ctx, log):
 
 
 # ----------------------------------------------------------------------------- generic differential run
-def differential(ctx, cases, impl_exe, model_exe, variant="asan", oracle=None, shards=None, impl_env=None):
+def differential(ctx, cases, impl_exe, model_exe, variant="asan", oracle=None, shards=None, impl_env=None, model_out=None):
     """cases: list of (line, cellkey).  Runs both sides, compares line by line.
     oracle(line, impl_out, model_out) -> None | str : decides whether a disagreement (or an
     agreement!) is a violation of the *property*; default: any disagreement is one, because the
@@ -438,7 +438,11 @@ def differential(ctx, cases, impl_exe, model_exe, variant="asan", oracle=None, s
     t0 = time.time()
     impl, impl_err = run_lines(impl_exe, lines, shards=shards, env=impl_env)
     t1 = time.time()
-    model, model_err = run_lines(model_exe, lines, shards=shards)
+    if model_out is not None:
+        model = model_out
+    else:
+        model, model_err = run_lines(model_exe, lines, shards=shards)
+    ctx.last_model_out = model
     t2 = time.time()
     ctx.notes.append("variant %s: impl %.1fs, model %.1fs, %d cases" % (variant, t1 - t0, t2 - t1, len(lines)))
     bad = []
